@@ -20,11 +20,7 @@ pub fn generate(seed: u64, index: u64, thorough: bool) -> Scenario {
     } else {
         ModelKind::Hand
     };
-    let sizes = if rng.chance(if thorough { 0.35 } else { 0.2 }) {
-        LARGE
-    } else {
-        SMALL
-    };
+    let sizes = pick_sizes(&mut rng, thorough, if thorough { 0.35 } else { 0.2 });
     let parallel = rng.chance(0.25);
     let start = *rng.pick(&[Start::Near, Start::Mid, Start::Far]);
     let noise = *rng.pick(&[1e-3, 5e-2, 0.3, 0.3, 0.0]);
